@@ -40,11 +40,121 @@ impl Cx {
 
 /// expected = Some(b): the property demands this answer (oracle); returns the observed answer
 fn check_verify(key: &str, what: &str, pk: &[u8], m: &[u8], sig: &[u8], expected: Option<bool>) -> bool {
-    match verify(pk, m, sig) {
+    let first = verify(pk, m, sig);
+    if let (Out::Ok(a), Out::Ok(b)) = (&first, &verify(pk, m, sig)) { if a != b {
+        emit_oracle_fail("repeat-verify-differs", &format!("{}: the same verification twice in a row: pk={} msg={} sig={} first={} second={}", what, hex(pk), hex(m), hex(sig), a, b)); } }
+    match first {
         Out::Ok(b) => { if let Some(e) = expected { if b != e {
             emit_oracle_fail(key, &format!("{}: pk={} msg={} sig={} verify={} expected={}", what, hex(pk), hex(m), hex(sig), b, e)); } } b }
         _ => { emit_oracle_fail("verify-panic", &format!("{}: pk={} msg={} sig={}", what, hex(pk), hex(m), hex(sig))); false }
     }
+}
+
+/// sign (and derive the public key) with the given key bytes; None on panic / rejected key
+fn resign(ext: bool, key: &[u8], m: &[u8]) -> Option<(Vec<u8>, Vec<u8>)> {
+    let key = key.to_vec(); let m = m.to_vec();
+    match guard(move || {
+        if ext { let mut e = [0u8; 64]; e.copy_from_slice(&key); let k = SecretKeyExtended::from_bytes(e).map_err(|x| x.to_string())?;
+                 let sg = k.sign(&m); Ok((<[u8; 32]>::from(k.public_key()).to_vec(), sg.as_ref().to_vec())) }
+        else { let mut e = [0u8; 32]; e.copy_from_slice(&key); let k = SecretKey::from(e);
+               let sg = k.sign(&m); Ok((<[u8; 32]>::from(k.public_key()).to_vec(), sg.as_ref().to_vec())) } }) {
+        Out::Ok(v) => Some(v), _ => None }
+}
+
+/// what a FRESH thread observes: `first` operation on the thread, then the rest. order: 0 = sign first,
+/// 1 = public_key first, 2 = a (rejecting) verify first, 3 = sign with another key first
+fn on_fresh_thread(ext: bool, key: Vec<u8>, m: Vec<u8>, order: u8) -> Option<(Vec<u8>, Vec<u8>, bool, Vec<u8>)> {
+    std::thread::spawn(move || {
+        std::panic::catch_unwind(move || {
+            let sign = |m: &[u8]| -> Vec<u8> {
+                if ext { let mut e = [0u8; 64]; e.copy_from_slice(&key); SecretKeyExtended::from_bytes(e).unwrap().sign(m).as_ref().to_vec() }
+                else { let mut e = [0u8; 32]; e.copy_from_slice(&key); SecretKey::from(e).sign(m).as_ref().to_vec() } };
+            let public = || -> [u8; 32] {
+                if ext { let mut e = [0u8; 64]; e.copy_from_slice(&key); SecretKeyExtended::from_bytes(e).unwrap().public_key().into() }
+                else { let mut e = [0u8; 32]; e.copy_from_slice(&key); SecretKey::from(e).public_key().into() } };
+            match order {
+                1 => { let _ = public(); }
+                2 => { let _ = PublicKey::from([3u8; 32]).verify(b"x", &Signature::from([5u8; 64])); }
+                3 => { let _ = SecretKey::from([0x42u8; 32]).sign(b"other"); }
+                _ => {}
+            }
+            let sig_first = sign(&m);
+            let pk = public();
+            let mut s = [0u8; 64]; s.copy_from_slice(&sig_first);
+            let ok = PublicKey::from(pk).verify(&m, &Signature::from(s));
+            let _ = SecretKey::from([0x17u8; 32]).sign(b"in between");
+            let sig_again = sign(&m);
+            (pk.to_vec(), sig_first, ok, sig_again)
+        }).ok()
+    }).join().ok().flatten()
+}
+
+/// history / state shapes: degenerate keys as the first operation of a fresh thread, and fixed
+/// interleavings on the main thread. Expected values are computed once and reused for the repeats.
+fn history(cx: &mut Cx, rng: &mut Rng) {
+    let one = { let mut v = vec![0u8; 32]; v[0] = 1; v };
+    let clamp = |mut e: Vec<u8>| { e[0] &= 0xf8; e[31] = (e[31] & 0x3f) | 0x40; e };
+    let degenerate: Vec<(bool, Vec<u8>, &str)> = vec![
+        (false, vec![0u8; 32], "seed-all-zero"), (false, vec![0xffu8; 32], "seed-all-ff"), (false, one.clone(), "seed-01-then-zeros"),
+        (true, clamp(vec![0u8; 64]), "ext-all-zero-clamped"), (true, clamp(vec![0xffu8; 64]), "ext-all-ff-clamped"),
+    ];
+    for (ext, key, name) in &degenerate {
+        let m: Vec<u8> = match rng.below(3) { 0 => vec![], 1 => vec![0u8; 32], _ => rng.bytes(24) };
+        let mut reference: Option<(Vec<u8>, Vec<u8>)> = None;
+        for order in 0..4u8 {
+            match on_fresh_thread(*ext, key.clone(), m.clone(), order) {
+                None => emit_oracle_fail("sign-panic", &format!("{} on a fresh thread (order {}): key={} msg={}", name, order, hex(key), hex(&m))),
+                Some((pk, s1, ok, s2)) => {
+                    let what = format!("{} as {} operation of a fresh thread: key={} msg={} pk={} sig={}", name,
+                        ["the FIRST", "the second (after public_key)", "the second (after a verify)", "the second (after another key signed)"][order as usize], hex(key), hex(&m), hex(&pk), hex(&s1));
+                    if !ok { emit_oracle_fail("sign-verify", &format!("{} does not verify under the key's own public key", what)); }
+                    if s1 != s2 { emit_oracle_fail("repeat-sign-differs", &format!("{} ; signing again on the same thread gives {}", what, hex(&s2))); }
+                    match &reference { None => reference = Some((pk.clone(), s1.clone())),
+                        Some((rpk, rs)) => if *rpk != pk || *rs != s1 { emit_oracle_fail("repeat-sign-differs", &format!("{} ; another fresh thread gave pk={} sig={}", what, hex(rpk), hex(rs))); } }
+                }
+            }
+        }
+        // the same on the main thread, after everything that ran before
+        if let (Some((rpk, rs)), Some((pk, sg))) = (&reference, resign(*ext, key, &m)) {
+            if *rpk != pk || *rs != sg { emit_oracle_fail("repeat-sign-differs", &format!("{}: key={} msg={} fresh thread pk={} sig={} main thread pk={} sig={}", name, hex(key), hex(&m), hex(rpk), hex(rs), hex(&pk), hex(&sg))); }
+        }
+        if let Some((pk, sg)) = &reference {
+            cx.triples += 1;
+            // what the FIRST call on a fresh thread produced goes through the model
+            cx.case("history-fresh-thread", format!("({} {} {} {} {})", if *ext { "CExt" } else { "CStd" }, xb(key), xb(&m), xb(pk), xb(sg)));
+        }
+    }
+    // ---- fixed interleavings on the main thread: two keys A, B (and the zero seed Z)
+    let a = rng.bytes(32); let b = rng.bytes(32); let z = vec![0u8; 32];
+    let ma = rng.bytes(40); let mb = rng.bytes(3);
+    let exp = |k: &Vec<u8>, m: &Vec<u8>| resign(false, k, m);
+    let (ea, eb, ez) = match (exp(&a, &ma), exp(&b, &mb), exp(&z, &ma)) { (Some(x), Some(y), Some(w)) => (x, y, w), _ => { emit_oracle_fail("sign-panic", "history keys"); return; } };
+    let order: [u8; 14] = [b'A', b'A', b'B', b'A', b'B', b'B', b'Z', b'A', b'Z', b'Z', b'B', b'Z', b'A', b'A'];
+    for (step, w) in order.iter().enumerate() {
+        let (k, m, e) = match w { b'A' => (&a, &ma, &ea), b'B' => (&b, &mb, &eb), _ => (&z, &ma, &ez) };
+        match resign(false, k, m) {
+            Some(got) if got == *e => {}
+            got => emit_oracle_fail("repeat-sign-differs", &format!("main thread, step {} of sign order {}: key={} msg={} expected pk={} sig={} got {:?}", step, String::from_utf8_lossy(&order), hex(k), hex(m), hex(&e.0), hex(&e.1), got.map(|(p, s)| (hex(&p), hex(&s))))),
+        }
+    }
+    cx.case("history-main-thread", format!("(CStd {} {} {} {})", xb(&a), xb(&ma), xb(&ea.0), xb(&ea.1)));
+    // verify: invalid twice, invalid / valid / invalid / valid, valid twice, other key's triple in between
+    let bad_a = { let mut v = ea.1.clone(); v[5] ^= 0x10; v };
+    let bad_m = { let mut v = ma.clone(); v[0] ^= 1; v };
+    let script: Vec<(&Vec<u8>, &Vec<u8>, &Vec<u8>, bool, &str)> = vec![
+        (&ea.0, &ma, &bad_a, false, "invalid sig"), (&ea.0, &ma, &bad_a, false, "invalid sig again"), (&ea.0, &ma, &ea.1, true, "valid"), (&ea.0, &ma, &bad_a, false, "invalid after valid"),
+        (&ea.0, &ma, &ea.1, true, "valid again"), (&ea.0, &ma, &ea.1, true, "valid twice"), (&eb.0, &mb, &eb.1, true, "other key valid"), (&ea.0, &bad_m, &ea.1, false, "tampered message"),
+        (&ea.0, &bad_m, &ea.1, false, "tampered message again"), (&eb.0, &ma, &ea.1, false, "foreign key"), (&eb.0, &ma, &ea.1, false, "foreign key again"), (&ez.0, &ma, &ez.1, true, "zero seed valid"),
+        (&ea.0, &ma, &bad_a, false, "invalid sig, third time"), (&ez.0, &ma, &ez.1, true, "zero seed valid again"),
+    ];
+    for (step, (pk, m, sg, want, what)) in script.iter().enumerate() {
+        match verify(pk, m, sg) {
+            Out::Ok(got) if got == *want => {}
+            Out::Ok(got) => emit_oracle_fail(if *want { "sign-verify" } else { "repeat-verify-differs" }, &format!("main thread, verify script step {} ({}): pk={} msg={} sig={} verify={} expected={}", step, what, hex(pk), hex(m), hex(sg), got, want)),
+            _ => emit_oracle_fail("verify-panic", &format!("verify script step {} ({})", step, what)),
+        }
+    }
+    cx.verify_case("history-main-thread", &ea.0, &ma, &bad_a, false);
 }
 
 fn flip(bs: &[u8], bit: usize) -> Vec<u8> { let mut v = bs.to_vec(); v[bit / 8] ^= 1 << (bit % 8); v }
@@ -89,6 +199,10 @@ fn triple(cx: &mut Cx, rng: &mut Rng, i: usize) {
       if !m.is_empty() { check_verify("tampered-message-accepted", "truncated", &pk, &m[..m.len() - 1], &sig, Some(false)); } }
     let mut s_plus_l = sig.to_vec(); s_plus_l[32..].copy_from_slice(&add_le(&sig[32..], &L_LE));
     check_verify("malleable-S-plus-L-accepted", "S + L", &pk, &m, &s_plus_l, Some(false));
+    // the same key signs the same message again, after all those verifications: same public key, same signature
+    if let Some((pk2, sig2)) = resign(ext, &keybytes, &m) {
+        if pk2 != pk || sig2 != sig { emit_oracle_fail("repeat-sign-differs", &format!("{} key={} msg={} first pk={} sig={} again pk={} sig={}", if ext { "extended" } else { "standard" }, hex(&keybytes), hex(&m), hex(&pk), hex(&sig), hex(&pk2), hex(&sig2))); }
+    }
 
     // ---- one verification of this triple also goes through the model (a scalar multiplication costs seconds there)
     match (i + rng.below(2) as usize) % 8 {
@@ -160,6 +274,16 @@ fn main() {
     if args.extra.iter().any(|a| a == "--find-near") { find_near(); return; }
     let mut rng = Rng::new(args.seed);
     let mut cx = Cx { oracle_only: args.oracle_only, thorough: args.tier == "thorough", triples: 0, tamper_checks: 0 };
+
+    // ---- the very first key operation of the main thread: the all-zero seed signs (nothing is cached yet)
+    match resign(false, &[0u8; 32], b"first") {
+        Some((pk, sg)) => {
+            check_verify("sign-verify", "all-zero seed, first operation of the main thread", &pk, b"first", &sg, Some(true));
+            if Some((pk.clone(), sg.clone())) != resign(false, &[0u8; 32], b"first") { emit_oracle_fail("repeat-sign-differs", &format!("all-zero seed signing twice at start-up: first pk={} sig={}", hex(&pk), hex(&sg))); }
+            cx.case("history-first-on-main-thread", format!("(CStd {} {} {} {})", xb(&[0u8; 32]), xb(b"first"), xb(&pk), xb(&sg)));
+        }
+        None => emit_oracle_fail("sign-panic", "all-zero seed, first operation of the main thread"),
+    }
 
     // ---- EXHAUSTIVE: all 256 x 256 (byte 0, byte 31) pairs, four fillers for the other 62 bytes (every run).
     // Oracle on every pair (from_bytes and TryFrom); for two fillers the whole accept/reject grid goes through
@@ -253,6 +377,7 @@ fn main() {
 
     targeted(&mut cx, &mut rng);
     for i in 0..args.n { triple(&mut cx, &mut rng, i); }
+    history(&mut cx, &mut rng);
     emit_stat("triples", cx.triples);
     emit_stat("tamper_checks_oracle", cx.tamper_checks);
 }
